@@ -48,7 +48,7 @@ type Case struct {
 	MutOther bool   `json:"mutother"` // mutate an item of //p2 instead (must not re-run t)
 }
 
-var hard = map[string]bool{"tuple-slice": true, "strset": true, "cyclic-strset": true, "signature": true, "kwonly": true, "varargs": true, "closure-pair": true, "wrapped-twice": true, "recursive": true, "mutual": true, "closure": true, "closure2": true, "default": true, "nested": true, "biglist": true, "bigdict": true, "bigset": true, "cyclic": true,
+var hard = map[string]bool{"bound-method": true, "valkind": true, "tuple-slice": true, "strset": true, "cyclic-strset": true, "signature": true, "kwonly": true, "varargs": true, "closure-pair": true, "wrapped-twice": true, "recursive": true, "mutual": true, "closure": true, "closure2": true, "default": true, "nested": true, "biglist": true, "bigdict": true, "bigset": true, "cyclic": true,
 	"pre-vf": true, "pre-cache": true, "pre-host": true, "pre-os": true}
 
 // render returns definition text and the use expression of item i (with name suffix sfx).
@@ -124,6 +124,14 @@ func (it Item) render(i int, sfx string, mutated bool) (def, use string) {
 		return fmt.Sprintf("def un%s(x):\n    return %s(x)\n", n, k), "un" + n + "([1, 2])"
 	case "builtin-global":
 		return fmt.Sprintf("fm%s = %s\n", n, k), "fm" + n + "(\"a\")"
+	case "bound-method":
+		// K = "receiver|method|call arguments": a global bound to a method of a value; the mutation changes the receiver
+		f := strings.SplitN(k, "|", 3)
+		return fmt.Sprintf("bm%s = %s.%s\n", n, f[0], f[1]), "bm" + n + "(" + f[2] + ")"
+	case "valkind":
+		// a global holding a value that is neither a scalar nor a list/dict/set/tuple literal: ranges, the
+		// views returned by string and bytes methods
+		return fmt.Sprintf("VK%s = %s\n", n, k), "[type(VK" + n + "), [x for x in VK" + n + "]]"
 	case "pre-vf":
 		return "", "vf.digest(\"x\")"
 	case "pre-host":
@@ -337,10 +345,30 @@ var sigPairs = [][2]string{
 	{"a, *, c=2|return [a, c]|1", "a, *, c=3|return [a, c]|1"},
 }
 
-var kinds = []string{"closure-pair", "wrapped-twice", "signature", "kwonly", "varargs", "tuple-slice", "strset", "cyclic-strset", "const", "deepconst", "func", "recursive", "mutual", "default", "closure", "closure2", "nested", "lambda", "compr", "loop", "universal", "builtin-global",
+// bound methods: same method, another receiver
+var boundPairs = [][2]string{
+	{"\"abc\"|upper|", "\"abd\"|upper|"},
+	{"\"a,b\"|split|\",\"", "\"a,c\"|split|\",\""},
+	{"[1, 2, 3]|index|2", "[2, 1, 3]|index|2"},
+	{"{\"k\": 1}|get|\"k\"", "{\"k\": 2}|get|\"k\""},
+	{"\"x-%s\"|format|", "\"y-%s\"|format|"},
+	{"b\"ab\"|elems|", "b\"ac\"|elems|"},
+}
+
+// values of other kinds: another value of the same kind, or the same elements as another kind
+var valkindPairs = [][2]string{
+	{"range(3)", "range(4)"}, {"range(1, 7, 2)", "range(1, 7, 3)"}, {"range(3)", "[0, 1, 2]"}, {"range(1001)", "range(1002)"},
+	{"\"abc\".elems()", "\"abd\".elems()"}, {"\"abc\".codepoints()", "\"abd\".codepoints()"},
+	{"\"abc\".elem_ords()", "\"abd\".elem_ords()"}, {"\"abc\".codepoint_ords()", "\"abd\".codepoint_ords()"},
+	{"b\"abc\".elems()", "b\"abd\".elems()"}, {"\"abc\".codepoints()", "\"abc\".elems()"},
+}
+
+var kinds = []string{"bound-method", "valkind", "closure-pair", "wrapped-twice", "signature", "kwonly", "varargs", "tuple-slice", "strset", "cyclic-strset", "const", "deepconst", "func", "recursive", "mutual", "default", "closure", "closure2", "nested", "lambda", "compr", "loop", "universal", "builtin-global",
 	"biglist", "bigdict", "bigset", "biginline", "cyclic", "pre-vf", "pre-host", "pre-package", "pre-cache", "pre-flag", "pre-builtins", "recursive", "closure", "const"}
 
-var pairs = [][2]string{{"7", "8"}, {"300", "65580"}, {"256", "257"}, {"65535", "65536"}, {"\"a\"", "\"b\""}, {"(1, 2)", "(1, 3)"}, {"[1, 300]", "[1, 301]"}, {"1.5", "2.5"}, {"None", "False"}, {"{\"k\": 1}", "{\"k\": 2}"}, {"b\"x\"", "b\"y\""}, {"12345678901234567890", "12345678901234567891"}}
+var pairs = [][2]string{{"7", "8"}, {"300", "65580"}, {"256", "257"}, {"65535", "65536"}, {"\"a\"", "\"b\""}, {"(1, 2)", "(1, 3)"}, {"[1, 300]", "[1, 301]"}, {"1.5", "2.5"}, {"None", "False"}, {"{\"k\": 1}", "{\"k\": 2}"}, {"b\"x\"", "b\"y\""}, {"12345678901234567890", "12345678901234567891"},
+	// integers around the widths of fixed-size encodings, and their two's-complement aliases
+	{"9223372036854775808", "-9223372036854775808"}, {"18446744073709551615", "-1"}, {"4294967296", "0"}, {"2147483648", "-2147483648"}, {"9223372036854775807", "9223372036854775808"}, {"340282366920938463463374607431768211456", "0"}}
 
 func genItem(t *rapid.T, label string) Item {
 	k := rapid.SampledFrom(kinds).Draw(t, label)
@@ -354,6 +382,12 @@ func genItem(t *rapid.T, label string) Item {
 		it.K, it.K2 = p[0], p[1]
 	case "signature":
 		p := rapid.SampledFrom(sigPairs).Draw(t, "sig")
+		it.K, it.K2 = p[0], p[1]
+	case "bound-method":
+		p := rapid.SampledFrom(boundPairs).Draw(t, "bound")
+		it.K, it.K2 = p[0], p[1]
+	case "valkind":
+		p := rapid.SampledFrom(valkindPairs).Draw(t, "valkind")
 		it.K, it.K2 = p[0], p[1]
 	case "pre-vf", "pre-host", "pre-package", "pre-os", "pre-cache", "pre-flag", "pre-builtins":
 		// no mutation
